@@ -140,6 +140,18 @@ func (store *ModuleStore) NewModule(ctx Context, impl *ModuleImpl) (*Module, err
 		Globals:    impl.Globals.Copy(),
 		Context:    ctx,
 	}
+	// impl.Globals is shared by every context that instantiates this module and
+	// the copy above is shallow: give the instance its own copy of the mutable
+	// containers found there (e.g. os.environ), so that a mutation made in one
+	// context is neither visible nor a data race in another.
+	for k, v := range m.Globals {
+		switch x := v.(type) {
+		case StringDict:
+			m.Globals[k] = x.Copy()
+		case *List:
+			m.Globals[k] = x.Copy()
+		}
+	}
 	// Insert the methods into the module dictionary
 	// Copy each method an insert each "live" with a ptr back to the module (which can also lead us to the host Context)
 	for _, method := range impl.Methods {
